@@ -81,6 +81,9 @@ def showBool (b : Bool) : String := if b then "true" else "false"
 /-- float arms, named as the translator names them; comparisons are the bit-level IEEE definitions
     of Model/F64.lean, arithmetic is the platform double -/
 def floatOp (name : String) (a b : F64) : Option String :=
+  -- `==` / `!=` on floats go through the value equality (IEEE: NaN is unequal to everything, +0 == -0), not through a math arm
+  if name == "equal" then some (showBool (F64.feq a b)) else
+  if name == "not_equal" then some (showBool (!F64.feq a b)) else
   match (List.lookup name Gen.floatArms).bind (·.1) with
   | some "fadd" => some s!"(f {Spec.floatBits (F64.fadd a b)})"
   | some "fsub" => some s!"(f {Spec.floatBits (F64.fsub a b)})"
